@@ -19,6 +19,9 @@ EXPECT = ('float_bits_of(d.coeff as int, d.n_frac_digits as nat, Self::FRACTION_
 RNE = ('rne_bits(abs_int(d.coeff as int), pow10(d.n_frac_digits as nat), Self::FRACTION_BITS as nat, '
        'Self::EXP_BIAS as int)')
 
+NUMDENF = 'abs_int(d.coeff as int), pow10(d.n_frac_digits as nat), Self::FRACTION_BITS as nat'
+SIGEXP = 'rne_sig_exp(%s)' % NUMDENF
+
 PROOF = r'''
 // ---- proof side of C12 (unit-local).  Everything below is PROVED; the `m_*` functions and the `let`
 // chains in the `ensures` restate intermediate values of `from_decimal` as functions of its inputs so that
@@ -201,6 +204,9 @@ pub proof fn lemma_from_decimal(c: i128, f: u8, F: u32, bias: i32, BITS: u32)
         &&& bits2 == float_bits_of(c as int, f as nat, F as nat, bias as int, BITS as nat)
         &&& 0 <= bits2 < pw2(BITS as nat)
         &&& is_normal_pattern(rne_bits(abs_int(c as int), pow10(f as nat), F as nat, bias as int), F as nat, BITS as nat)
+        &&& is_nearest_ties_even(abs_int(c as int), pow10(f as nat), F as nat,
+                rne_sig_exp(abs_int(c as int), pow10(f as nat), F as nat).0,
+                rne_sig_exp(abs_int(c as int), pow10(f as nat), F as nat).1)
     }),
 {
     lemma_pw2_values();
@@ -241,6 +247,7 @@ pub proof fn lemma_from_decimal(c: i128, f: u8, F: u32, bias: i32, BITS: u32)
     assert(den1 * pw2(s) == pow10(f as nat) * pw2(b)) by (nonlinear_arith)
         requires den1 == den0 * pw2(dshl as nat), pw2(b) == pw2(dshl as nat) * pw2(s), den0 == pow10(f as nat);
     lemma_rne_bits_from_scaled(abs_int(c as int), pow10(f as nat), F as nat, bias as int, nshl as nat, b, m);
+    lemma_rne_is_nearest(abs_int(c as int), pow10(f as nat), F as nat, b - nshl);
     let exp = dlz as i32 - nlz as i32 - adj as i32;
     assert(b - nshl == exp - F);
     assert(-60 <= exp <= 126);
@@ -302,6 +309,9 @@ def float_trait_contracts():
             post=[('C12.from_decimal.bits', 'r == Self::of_bits((%s) as u64)' % EXPECT),
                   # the pattern fits the format and denotes a normal number (biased exponent neither 0 nor all ones)
                   ('C12.from_decimal.fits', '0 <= %s < pw2(Self::BITS as nat)' % EXPECT),
+                  # validation of the oracle on the whole domain: the (m, e) behind rne_bits is a nearest normal
+                  # number of the format, ties to even (relational form of the property statement)
+                  ('C12.from_decimal.oracle_nearest_even', 'is_nearest_ties_even(%s, %s.0, %s.1)' % (NUMDENF, SIGEXP, SIGEXP)),
                   ('C12.from_decimal.normal', 'is_normal_pattern(%s, Self::FRACTION_BITS as nat, Self::BITS as nat)' % RNE)],
             entry='lemma_from_decimal(d.coeff, d.n_frac_digits, Self::FRACTION_BITS, Self::EXP_BIAS, Self::BITS);'),
     }
